@@ -419,11 +419,12 @@ func fmtReplay(args []string) int {
 // returns must keep its text while other documents are formatted (sequentially or in other goroutines).
 
 type winCase struct {
-	id   string
-	b    fmtBehaviour
-	src  string
-	cls  map[string]any
-	want string // semantic projection TLC predicted
+	id     string
+	b      fmtBehaviour
+	src    string
+	cls    map[string]any
+	want   string       // semantic projection TLC predicted
+	wantCm []lexComment // comments TLC predicted, nil when the immediate result already deviated
 }
 
 func newWinCase(line []byte, r fmtResult) (winCase, bool) {
@@ -435,7 +436,11 @@ func newWinCase(line []byte, r fmtResult) (winCase, bool) {
 		return winCase{}, false
 	}
 	src, _ := render(decodeToks(b.Toks), b.Cm, &layout{})
-	return winCase{id: r.ID, b: b, src: src, cls: r.Class, want: canon(stripP(generic(b.ExpAst)))}, true
+	wc := winCase{id: r.ID, b: b, src: src, cls: r.Class, want: canon(stripP(generic(b.ExpAst)))}
+	if len(r.MM["C15"])+len(r.Pending["C15"]) == 0 {
+		wc.wantCm = wantComments(b.ExpCm)
+	}
+	return wc, true
 }
 
 func readAllSafe(r io.Reader) (s string) {
@@ -471,10 +476,18 @@ func windowCheck(win []winCase, n int) []fmtResult {
 			if v, err := parseVCL(texts[i]); err == nil {
 				ok = canon(stripP(generic(projectVCL(v)))) == w.want
 			}
-			if ok {
+			// C15: the comments of the outstanding result are still the comments of its own document
+			cmOK := w.wantCm == nil || sameComments(lexComments(texts[i]), w.wantCm)
+			if ok && cmOK {
 				continue
 			}
-			r := fmtResult{MM: map[string][]map[string]any{"C03": {{"obs": "outstanding-result-corrupted", "mode": mode}}}}
+			r := fmtResult{MM: map[string][]map[string]any{}}
+			if !ok {
+				r.MM["C03"] = []map[string]any{{"obs": "outstanding-result-corrupted", "mode": mode}}
+			}
+			if !cmOK {
+				r.MM["C15"] = []map[string]any{{"obs": "outstanding-result-corrupted", "mode": mode}}
+			}
 			r.ID = w.id + ":" + mode
 			r.Key = r.ID
 			r.Class = map[string]any{"fam": w.cls["fam"], "focus": w.cls["focus"], "opts": w.cls["opts"], "mode": mode}
